@@ -63,10 +63,29 @@ def read_whitelist(law):
 
 
 class LawExec(O.Exec):
+    def op_set_laws(self, op):
+        if op.get("via") == "item":
+            self.g(op["u"])["laws"] = self.g(op["L"])  # the keyed spelling BaseObject offers
+        else:
+            self.g(op["u"]).laws = self.g(op["L"])
+
+    def op_set_applies(self, op):
+        if op.get("via") == "item":
+            self.g(op["L"])["applies_to"] = self.g(op["u"])
+        else:
+            self.g(op["L"]).applies_to = self.g(op["u"])
+
     def op_mk_laws(self, op):
         kw = dict(op.get("kw") or {})
         if "wl" in op:
             kw["edge_whitelist"] = decode_whitelist(op["wl"])
+            if op.get("wl_share") is not None and kw["edge_whitelist"] is not None:
+                # a preset dictionary the caller keeps, edits and passes again
+                store = self.__dict__.setdefault("shared_wl", {})
+                d = store.setdefault(op["wl_share"], {})
+                d.clear()
+                d.update(kw["edge_whitelist"])
+                kw["edge_whitelist"] = d
         from edgegraph.structure.universe import UniverseLaws
 
         if op.get("positional"):
@@ -136,6 +155,8 @@ class C19(engine.Property):
         "ill-typed-assignment-on-bound-pair",
         "laws-constructed-positionally",
         "construction-fed-by-failing-iterable",
+        "whitelist-preset-dict-reused",
+        "assignment-through-item-syntax",
     ]
 
     def make_config(self, rng):
@@ -199,6 +220,9 @@ class C19(engine.Property):
                 ]
                 spec.append([rng.choice(WL_NAMES[:3]), inner])
             op["wl"] = spec
+            if rng.random() < 0.5:
+                op["wl_share"] = rng.choice(["p0", "p1"])
+                st.stats["probe:whitelist-preset-dict-reused"] += 1
         if rng.random() < 0.3:
             # pass a prefix of the arguments positionally: every parameter up to
             # the last one must then be given
@@ -234,11 +258,17 @@ class C19(engine.Property):
             if kind == "set_laws" and us:
                 u = rng.choice(us)
                 L = None if rng.random() < cfg["p_none"] else rng.choice(ls)
-                return {"op": "set_laws", "u": u, "L": L}
+                op = {"op": "set_laws", "u": u, "L": L}
+                if rng.random() < 0.2:
+                    op["via"] = "item"
+                return op
             if kind == "set_applies" and ls:
                 L = rng.choice(ls)
                 u = None if rng.random() < cfg["p_none"] else rng.choice(us)
-                return {"op": "set_applies", "L": L, "u": u}
+                op = {"op": "set_applies", "L": L, "u": u}
+                if rng.random() < 0.2:
+                    op["via"] = "item"
+                return op
             if kind == "mk_universe" and len(us) < cfg["max_u"]:
                 return {"op": "mk_universe", "new": st.namer.new("u"), "cls": rng.choice(cfg["universe_classes"])}
             if kind == "mk_universe_laws" and len(us) < cfg["max_u"] and ls:
@@ -286,6 +316,8 @@ class C19(engine.Property):
             return
         if k == "mk_laws" and op.get("positional"):
             s["probe:laws-constructed-positionally"] += 1
+        if op.get("via") == "item":
+            s["probe:assignment-through-item-syntax"] += 1
         if k == "set_laws" and op["u"] in snap:
             cur = snap[op["u"]].get("laws")
             if op["L"] is None:
